@@ -62,18 +62,58 @@ def param_local(fn, name):
 
 
 def calls_on_paths(cfg, start, stop_at_return=True):
-    """All Call terminators on any path from `start` to a Return."""
-    seen, st, out = set(), [start], []
+    """All Call terminators on any path from `start` to a Return.  The walk knows one thing about values: what `from_residual`
+    returns is a failure, so a `Try::branch` of it (the caller's own `?` on the result of an expanded helper that failed with `?`)
+    yields Break and only that arm of the following switch is taken; such a hand-over `branch` is not reported as a call."""
+    seen, out = set(), []
+    st = [(start, frozenset(), frozenset(), frozenset())]     # block, residual locals, Break-valued locals, discriminants known to be 1
+    blocks_seen = set()
     while st:
-        b = st.pop()
-        if b in seen:
+        b, R, BR, D1 = st.pop()
+        if (b, R, BR, D1) in seen:
             continue
-        seen.add(b)
-        t = cfg.blocks[b]["term"]
+        seen.add((b, R, BR, D1))
+        blocks_seen.add(b)
+        blk = cfg.blocks[b]
+        R, BR, D1 = set(R), set(BR), set(D1)
+        for s_ in blk["stmts"]:
+            if s_["k"] != "Assign" or s_["place"].get("p"):
+                continue
+            dst, rv = s_["place"]["l"], s_["rv"]
+            for coll in (R, BR, D1):
+                coll.discard(dst)
+            if rv["k"] == "Use" and rv["op"].get("k") in ("copy", "move"):
+                src = rv["op"]["place"]
+                if not src.get("p"):
+                    if src["l"] in R:
+                        R.add(dst)
+                    if src["l"] in BR:
+                        BR.add(dst)
+                elif src["l"] in BR:
+                    R.add(dst)          # the payload of a Break: the residual itself
+            elif rv["k"] == "Discriminant" and rv["place"]["l"] in BR and not rv["place"].get("p"):
+                D1.add(dst)
+        t = blk["term"]
+        succ = list(cfg.succ[b])
         if t["k"] == "Call":
-            out.append((b, mir.callee(t)))
-        st.extend(cfg.succ[b])
-    return out, seen
+            c = mir.callee(t)
+            dst = (t.get("dest") or {}).get("l")
+            a0 = t["args"][0] if t.get("args") else {}
+            arg_res = a0.get("k") in ("copy", "move") and not a0["place"].get("p") and a0["place"]["l"] in R
+            for coll in (R, BR, D1):
+                coll.discard(dst)
+            if c.endswith("Try>::branch") and arg_res:
+                BR.add(dst)
+            else:
+                out.append((b, c))
+                if c.endswith("from_residual") and dst is not None and not (t.get("dest") or {}).get("p"):
+                    R.add(dst)
+        elif t["k"] == "SwitchInt" and (t["discr"].get("place") or {}).get("l") in D1 and not (t["discr"].get("place") or {}).get("p"):
+            one = [x[1] for x in t.get("targets", []) if x[0] == 1]
+            succ = one if one else ([t["otherwise"]] if t.get("otherwise") is not None else [])
+        for n_ in succ:
+            st.append((n_, frozenset(R), frozenset(BR), frozenset(D1)))
+    return out, blocks_seen
 
 
 def assigns_none_to_return(cfg, blocks):
